@@ -28,6 +28,8 @@ EXTRA = [
     ("near-ties between restricted choices", {"p_r": 1.0, "p_near_tie": 1.0, "p_b": 0.5, "max_cells": 800, "all_admitted": True}),
     ("near-ties between restricted choices, one period", {"p_r": 1.0, "p_near_tie": 1.0, "p_b": 0.5, "T": [1], "sizes": {"a": 3}}),
     ("near-ties between restricted choices, two restricted choices", {"p_r": 1.0, "p_near_tie": 1.0, "p_b": 1.0, "p_b_in_filter": 1.0, "T": [1, 2], "max_cells": 800}),
+    ("lower-bound constraint, symmetric utility (ties with excluded grid points)",
+     {"p_lower_bound": 1.0, "p_w": 1.0, "p_c": 1.0, "p_quadratic": 1.0, "p_nobind": 0.0, "T": [1, 2], "sizes": {"c": 5}, "p_z": 0.0}),
     ("near-ties between unrestricted choices", {"p_r": 0.0, "p_a": 1.0, "p_b": 1.0, "p_near_tie": 1.0, "max_cells": 800}),
 ]
 PROFILES = LATTICE + EXTRA
